@@ -167,6 +167,15 @@ SPECS = [
                 "request[0] = REQUEST_ABORTED": "let byte0_ := REQUEST_ABORTED",
                 "struct.pack_into('<L', request, 4, abort_code)": "let code_at_4 := abort_code",
                 "self.send_request(request)": "let sent_ := Z.add sent_ 1"}),
+    # ReadableStream.readinto: (read(7) called?, count returned, bytes copied into b, len(_pending) afterwards)
+    dict(module=M, qualname="ReadableStream.readinto", name="src_rs_readinto",
+         params=[("plen", "Z"), ("cap", "Z"), ("read_len", "Z"), ("read7_", "bool"), ("copied_", "Z")],
+         ret="(bool * Z * Z * Z)",
+         calls={"not self._pending": "(Z.eqb plen 0)", "min(len(b), len(self._pending))": "(Z.min cap plen)"},
+         returns={"count": "(read7_, count, copied_, plen)"},
+         stmts={"self._pending = self.read(7)": "let '(plen, read7_) := (read_len, true)",
+                "b[:count] = self._pending[:count]": "let copied_ := count",
+                "self._pending = self._pending[count:]": "let plen := Z.sub plen count"}),
 ]
 
 
